@@ -60,4 +60,8 @@ PROPS = {
         "rule": "(a) pkg/tracing alone: 1..8 sender goroutines x 1..6 traces each, 1..4 subscribers with buffer 0..4 that subscribe late, consume lazily and unsubscribe after k traces or stay until termination, optional relay; (b) engine runs of C01-style programs with 2..3 subscribers of the process tracer: causality grammar (flows announced before they appear, visit before leave, nothing after termination) and identical sequences; distinct = schedule hash; non-trivial = >1 subscriber (a) or a forking run (b), with a context switch",
         "oracle": "history checks over stamped Send/Subscribe/Unsubscribe/receive events; causality grammar over the engine's trace stream",
     },
+    "C08": {
+        "level": "exploration", "quick_s": 35, "thorough_s": 900, "thorough_seeds": 4,
+        "rule": "T1 -> exclusive gateway reading T1's declared result (variable or data object) -> T2|T3 whose properties reference T1's results; answer history of T1: 1..3 Do calls sequential or from concurrent goroutines, declared + undeclared result fields and data outputs, error without handler / skip / exit / retry(n in 0..3) with success on attempt j or never, handler decision optionally late, never answered + task time-out, optional definition-level retries attribute; oracle: token game with error modes + call/return stamps of every Do + first-answer linearisation + visibility to the next task; distinct = schedule hash; non-trivial = a context switch",
+    },
 }
